@@ -24,7 +24,9 @@ RULE = ("virtual files of 120-620 bytes assembled from instances and near-misses
         "directed straddle scenarios: an occurrence of a greedy / variable-length pattern (/abc+/, /x[0-9]{2,5}/, /foo(barbaz|bar)/, /w[0-9]*/, /Q.*Z/, "
         "hex with a jump) crosses the END of one block (shorter match at the same start) and lies inside another overlapping block with a different base, "
         "with unrelated occurrences at higher and lower offsets in further blocks, delivered in any order; range(), data() and data_with_context() of every "
-        "reported match are read and compared with the file's bytes. Plus n/4 sequences of MatchList::add calls with bases through the hook, compared call by call "
+        "reported match are read and compared with the file's bytes. Half of the ordinary cases add 1-2 rules `$a at 0 and $b` / `$a at n and $b` / `$a in (0..n) and $b` ($b = the pattern of a plain rule): the conditions from which "
+        "the compiler derives header constraints and fixed-offset checks; $b occurs in blocks with base != 0, the base-0 block matches / does not match / is absent / is "
+        "shorter than the header, any delivery order. Plus n/4 sequences of MatchList::add calls with bases through the hook, compared call by call "
         "with the model (add_b). Reference: yara_x::Scanner::scan on every block alone. "
         "Plus 30 whole-file cases (filesize, uintN, hash, module fields, math x three histories). Distinct by (patterns, blocks, file prefix).")
 
@@ -38,6 +40,12 @@ def classify(case):
         if "Option::unwrap()" in str(case.get("panic")):
             return "C14:panic:unwrap-none-reading-results"
         return "C14:panic:block-scan"
+    hr = case.get("header_rules") or []
+    bad = [h for h in hr if h.get("matched") != h.get("expected")]
+    if bad:
+        if all(h.get("kind") == 0 and h.get("base0_block_shorter_than_header") and h.get("expected") and not h.get("matched") for h in bad):
+            return "C14:header-pruning:block-at-base-0-shorter-than-header"
+        return "C14:header-rule-verdict"
     return "C14:union-property"
 
 
